@@ -126,7 +126,7 @@ def region(D, view, base, pos):
     if k == "ProcessXor":
         key = D[1]
         key = bytes([key]) if isinstance(key, int) else bytes.fromhex(key)
-        data = bytes(b ^ key[i % len(key)] for i, b in enumerate(view[rel:]))
+        data = bytes(b ^ key[i % len(key)] for i, b in enumerate(view[rel:])) if key else bytes(view[rel:])
         return data, pos, end
     raise ValueError(D)
 
@@ -336,7 +336,7 @@ def gen_delim(rng, toend_ok):
         return ["NullStripped", rng.choice(PADS)]
     if r < 0.90:
         return ["OffsettedEnd", rng.randint(0, 3), rng.choice(["const", "ctx"])]
-    key = rng.choice([0, 1, 0x5a, 0xff, "00", "a5", "0102", "00" * 3, "0f" * 5])
+    key = rng.choice([0, 1, 0x5a, 0xff, "00", "a5", "0102", "00" * 3, "0f" * 5, "", "00" * 64, "00" * 70])
     return ["ProcessXor", key, rng.choice(["const", "ctx"])]
 
 
@@ -397,7 +397,7 @@ def wrap(rng, D, payload, variant):
     if k == "ProcessXor":
         key = D[1]
         key = bytes([key]) if isinstance(key, int) else bytes.fromhex(key)
-        return bytes(b ^ key[i % len(key)] for i, b in enumerate(payload)), D
+        return (bytes(b ^ key[i % len(key)] for i, b in enumerate(payload)) if key else bytes(payload)), D
 
 
 TOEND = ("NullStripped", "OffsettedEnd", "ProcessXor")
@@ -452,7 +452,7 @@ def run(ctx):
         singles.append(["FixedSized", None, form])
         for k in (0, 1, 3):
             singles.append(["OffsettedEnd", k, form])
-        for key in (0, 0x5a, "00", "a5", "0102", "000000"):
+        for key in (0, 0x5a, "00", "a5", "0102", "000000", "", "ff" * 65, "00" * 65):      # (an empty key changes nothing; all-zero keys up to 64 bytes are short-cut)
             singles.append(["ProcessXor", key, form])
     i = 0
     for D in singles:
